@@ -434,6 +434,18 @@ func readLines[T any](path string) ([]T, error) {
 func RunStore(fx *Fixtures, up *client.Upstream, dir string, n int, s AbstractStore, cases []AbstractCase, w *trace.Writer) error {
 	entries, keyID, active := Concretise(s)
 
+	// some of the stores with a certificate chain get certificates that expire while the service is
+	// running: the key keeps signing (it was valid when loaded), so it has to stay published
+	shortLived := s.Cert == "chain" && n%6 == 1
+	if shortLived {
+		s.Cert = "chain-short"
+		for i := range entries {
+			entries[i].Cert = "chain-short"
+		}
+	}
+
+	built := time.Now()
+
 	pemBytes, err := fx.BuildStore(entries)
 	if err != nil {
 		return err
@@ -603,6 +615,10 @@ func RunStore(fx *Fixtures, up *client.Upstream, dir string, n int, s AbstractSt
 		if err := a.Processor.OnCreated(rs); err != nil {
 			loaded[k] = firstLine(err.Error())
 		}
+	}
+
+	if shortLived {
+		time.Sleep(time.Until(built.Add(ShortCertLife + 1500*time.Millisecond)))
 	}
 
 	firstSeen := map[string][2]int64{}
